@@ -48,6 +48,7 @@ var pinnedKeyFormats = map[string]string{
 
 func checkC13(c *Ctx) {
 	l := c.L
+	checkRootRecordEmpty(c, "TABLE-root-record")
 	c.rule("FORMAT-node", "node encoder / decoder layouts equal the pinned format", 3)
 	c.rule("FORMAT-fastnode", "fast-node encoder / decoder layouts equal the pinned format", 2)
 	c.rule("FORMAT-keys", "fixed-width big-endian key layouts and key-space prefixes", 10)
@@ -71,6 +72,7 @@ func checkC13(c *Ctx) {
 	c.rule("OWN-resolve-inputs", "node / root lookups depend on the key and the stored bytes only", 4)
 	checkResolveInputs(c, "OWN-resolve-inputs")
 	checkVarintBoundaries(c, "FORMAT-primitives")
+	checkGetNodeKeyLength(c, "TOTAL-decoders")
 	c.rule("FORMAT-narrowing", "a decoded integer stored into a narrower field is accepted exactly over that field's range (the range the encoder emits)", 3)
 	checkNarrowing(c)
 	checkFormatX(c, l, "FORMAT-primitives", "encoding.EncodeBytes", l.Func("internal/encoding", "EncodeBytes"), false, true, []string{"U(len(arg1)) W(arg1)"})
@@ -222,13 +224,13 @@ func checkTotalC13(c *Ctx) {
 		}
 	}
 	an.pre[getNodeKey] = needLen(12, "GetNodeKey reads 12 bytes; the argument's length is not established on some path")
-	an.pre[isRef] = needLen(1, "isReferenceRoot reads bz[0]; a non-empty argument is not established on some path")
+	// isReferenceRoot is analysed for ARBITRARY input (it is called on every value of the node key-space by the
+	// whole-store walks, including the empty value that encodes the root of an empty tree)
+	_ = isRef
 	an.entryInv = func(s *tstate, fn *ssa.Function) {
 		switch fn {
 		case getNodeKey:
 			s.assume(konst(12), s.lenOfValue(fn.Params[0]), 0) // declared precondition, checked at call sites
-		case isRef:
-			s.assume(konst(1), s.lenOfValue(fn.Params[0]), 0)
 		case makeNode:
 			// declared precondition of MakeNode: nk is a 12-byte node key (GetNode dispatches 32-byte legacy keys to MakeLegacyNode)
 			s.assume(konst(12), s.lenOfValue(fn.Params[0]), 0)
@@ -534,5 +536,52 @@ func checkVarintBoundaries(c *Ctx, rule string) {
 	}
 	if n < 1 {
 		c.anchorMissing(rule, "no varint boundary comparison found in internal/encoding")
+	}
+}
+
+// checkGetNodeKeyLength: child links are decoded from stored bytes (a legacy
+// link is a length-prefixed byte string of any length).  GetNode is where a
+// link is resolved: for a key that is neither a 32-byte legacy hash nor a
+// 12-byte (version, nonce) key it must leave with an error before it reaches
+// GetNodeKey, which indexes 12 bytes.  Walked abstractly for a 5-byte key.
+func checkGetNodeKeyLength(c *Ctx, rule string) {
+	l := c.L
+	gn := l.Func("", "*nodeDB.GetNode")
+	gnk := l.Func("", "GetNodeKey")
+	if gn == nil || gnk == nil {
+		c.anchorMissing(rule, "nodeDB.GetNode / GetNodeKey")
+		return
+	}
+	for _, n := range []int64{5, 13} {
+		n := n
+		env := &tableEnv{l: l, flag: map[string]int{}, cmp: func(a, b string) (int, bool) { return 0, false }}
+		env.ints = func(v ssa.Value, role string) (int64, bool) {
+			if role == "len(arg0)" {
+				return n, true
+			}
+			return 0, false
+		}
+		env.isNil = func(role string) int {
+			if role == "arg0" {
+				return -1
+			}
+			return 1 // cache miss, storage miss: the path that goes on to re-key the lookup
+		}
+		reached := false
+		run := runTable(gn, env, func(call *ssa.Call) string {
+			if predStatic(gnk)(&call.Call) {
+				reached = true
+			}
+			return ""
+		})
+		ok := !reached && run.ret != nil && errNilness(retVal(run.ret, 1), run.ret.Block(), 0) > 0
+		why := "GetNodeKey is reached"
+		if !reached && run.ret == nil {
+			why = "the walk could not decide a branch"
+		} else if !reached {
+			why = "the call returns without an error"
+		}
+		c.decide(rule, fmt.Sprintf("GetNode rejects a %d-byte node key before indexing it", n), l.pos(gn.Pos()), ok, "error return, GetNodeKey not reached",
+			why+fmt.Sprintf(" for a %d-byte key: a stored node whose (legacy) child link has a wrong length makes the tree walk panic (index out of range) instead of failing with an error", n))
 	}
 }
